@@ -259,8 +259,13 @@ def invariant_loop(eng, stmt, label, spec, view, s, iter_val=None, guard=None):
                 if t is not None:
                     starts.append(t)
                 # the exit from an arbitrary iteration is covered by the exit state below
+        later = []      # vacuity probe: can the end of a LATER iteration (index >= 1) be refuted outright?
         for s2 in starts:
             for o in eng.exec_block(stmt.body, s2):
+                if len(later) < 6 and "sat" not in later and "unknown" not in later:
+                    later.append(smt.check_sat(o.st.pc + [i >= 1], 1500, config={}))
+                    if later[-1] == "unsat":
+                        later[-1] = smt.check_sat(o.st.pc + [i >= 1], 1500)
                 if o.kind in ("fall", "continue"):
                     for j, inv in enumerate(invs):
                         eng.oblige(f"{qual}.{label}.inv{j}.preserved", o.st,
@@ -275,6 +280,14 @@ def invariant_loop(eng, stmt, label, spec, view, s, iter_val=None, guard=None):
                     out.append(o)
     finally:
         eng.frame_stack.pop()
+    if later and all(x == "unsat" for x in later) and not (is_for and z3.is_int_value(smt.simp(view.n)) and smt.simp(view.n).as_long() <= 1):
+        # every way through the body is contradictory once the invariant is assumed for a later iteration: whatever was
+        # "proved" about the body holds for the first iteration only (this is how an unscoped axiom of the deepcopy
+        # model showed up)
+        from .engine import Obligation
+        ob = Obligation(f"{qual}.{label}.smoke.later_iteration_consistent", [], z3.BoolVal(True), "smoke")
+        ob.smoke_status = "unsat"
+        eng.obligations.append(ob)
 
     # 4. after the loop
     ex = hs.copy()
